@@ -52,7 +52,7 @@ var (
 	rtForward = []byte{0x60, 0x00, 0x60, 0x00, 0x60, 0x00, 0x60, 0x00, 0x34, 0x60, 0x00, 0x35, 0x5a, 0xf1, 0x00} // call(gas, calldata[0], callvalue)
 	rtLog     = []byte{0x60, 0x00, 0x60, 0x00, 0xa0, 0x00}                                                       // log0
 	rtLoop    = []byte{0x5b, 0x60, 0x00, 0x56}                                                                   // jumpdest push0 jump
-	rtSuicide = []byte{0x33, 0xff} // selfdestruct(caller)
+	rtSuicide = []byte{0x33, 0xff}                                                                               // selfdestruct(caller)
 	// keeps what it is sent; called without value it pays its whole balance to the caller
 	rtPayout = []byte{0x34, 0x60, 0x11, 0x57, 0x60, 0x00, 0x60, 0x00, 0x60, 0x00, 0x60, 0x00, 0x30, 0x31, 0x33, 0x5a, 0xf1, 0x5b, 0x00}
 )
